@@ -165,6 +165,25 @@ def opDbc (j : Json) : Except String Json := do
   | .error _ => pure ()
   return Json.mkObj out
 
+def fsOfJson (j : Json) : Except String Codegen.FS := do
+  let a ← j.getArr?
+  a.toList.mapM fun p => do
+    let q ← p.getArr?
+    if h : q.size = 2 then return (← q[0].getStr?, ← q[1].getStr?) else throw "bad fs pair"
+
+/-- gate: `GeneratorManager.generate` on an abstract file system -/
+def opGate (j : Json) : Except String Json := do
+  let pre ← fsOfJson (← j.getObjVal? "pre")
+  let files ← fsOfJson (← j.getObjVal? "files")
+  let okv ← j.getObjValAs? Bool "verdict_ok"
+  let clears ← j.getObjValAs? Bool "clears_ch"
+  let plugin : Codegen.Plugin := { deletes := if clears then Codegen.clearsCH else fun _ => [], files := files }
+  let verdict : Except String Unit := if okv then .ok () else .error "rejected"
+  let (fs, r) := Codegen.generateCmd verdict plugin pre
+  let dedup := fs.foldl (fun (acc : List (String × String)) e => if acc.any (·.1 == e.1) then acc else acc ++ [e]) []
+  return Json.mkObj [("result_ok", Json.bool r.isOk),
+    ("fs", Json.arr (dedup.map fun (p, c) => Json.arr #[Json.str p, Json.str c]).toArray)]
+
 def opSched (j : Json) : Except String Json := do
   let periods ← j.getObjValAs? (Array Int) "periods"
   let times ← j.getObjValAs? (Array Nat) "times"
@@ -181,6 +200,7 @@ def dispatch (j : Json) : Except String Json := do
   | "verify" => opVerify j
   | "sched" => opSched j
   | "dbc" => opDbc j
+  | "gate" => opGate j
   | _ => throw s!"unknown op {op}"
 
 partial def loop (hin : IO.FS.Stream) (hout : IO.FS.Stream) : IO Unit := do
